@@ -195,6 +195,47 @@ pub fn check_liveness(obs: &Observed) -> Option<Viol> {
     None
 }
 
+/// Environment: crash injection. At seeded steps a running process other than
+/// the main shell (pid 2) is killed with SIGKILL by pid 1 - what the OOM
+/// killer or an administrator does to a real shell's children at arbitrary
+/// instants. The kill is recorded in the history as an ordinary `kill` event.
+pub fn crash_env(cfg: &SimConfig) -> impl FnMut(&mut Sim, u64) -> bool + use<> {
+    let rate = cfg.crash_permille;
+    let max = cfg.crash_max;
+    let mut done = 0u32;
+    move |sim: &mut Sim, _step: u64| {
+        if rate == 0 || done >= max {
+            return true;
+        }
+        if !sim.ctl.decider.borrow_mut().chance(crate::rng::tag::ENV, rate) {
+            return true;
+        }
+        let victims: Vec<yash_env::job::Pid> = sim
+            .state
+            .borrow()
+            .processes
+            .iter()
+            .filter(|(pid, p)| pid.0 > 2 && p.state() == yash_env::job::ProcessState::Running)
+            .map(|(pid, _)| *pid)
+            .collect();
+        if victims.is_empty() {
+            return true;
+        }
+        let k = sim.ctl.decider.borrow_mut().choose(crate::rng::tag::ENV, victims.len() as u32) as usize;
+        let sys = yash_env::system::r#virtual::VirtualSystem {
+            state: std::rc::Rc::clone(&sim.state),
+            process_id: yash_env::job::Pid(1),
+        };
+        {
+            use yash_env::system::SendSignal as _;
+            drop(sys.kill(victims[k], Some(yash_env::system::r#virtual::SIGKILL)));
+        }
+        done += 1;
+        sim.ctl.count("crash_injected");
+        true
+    }
+}
+
 /// Plan for signals sent by the simulator to the main shell (pid 2) while the
 /// script says it is armed (`mark armed` ... `mark disarmed`); trap actions
 /// announce themselves with `mark tb <name>` / `mark te <name>`.
